@@ -540,7 +540,8 @@ class Gen:
                     self.f("reraise")
                     L.append(f"{ind}    if {self.expr(BOOL, env, 2)}:")
                     L.append(f"{ind}        raise")
-                if r.random() < 0.25:
+                if r.random() < 0.25 and not any(x.startswith(ind + "    return") for x in body):
+                    # (an `else:` after a try body that always returns is unreachable: mypyc emits invalid C for it)
                     self.f("try-else")
                     L.append(f"{ind}else:")
                     L.append(f"{ind}    log('no-exc')")
